@@ -137,7 +137,8 @@ impl<'l> Context<'l>
 			Segment::Empty => unreachable!("empty segment wrapper"),
 			Segment::Active(ref seg) =>
 			{
-				if addr == seg.base_addr {return Ok(false);}
+				// re-selecting the base is only a no-op while nothing was written there
+				if addr == seg.base_addr && seg.buffer.is_empty() {return Ok(false);}
 				self.close_segment()?;
 			},
 			Segment::Inactive(..) => (),
